@@ -326,4 +326,26 @@ CHECKS = {
              "in rules/C14.py. Several R3/R6 instances compare normalised "
              "statement text of small generators (listed in DESIGN.md as "
              "the weakest rules)."),
+    "C18": dict(
+        technique="CFG dominance / must-pass-through over the decorator "
+                  "wrapper and Context.__exit__, role (dimension) inference "
+                  "over every internal call of both controllers down to the "
+                  "packet constructor, stdlib-API existence check (LINK)",
+        text="Decorator: defaults (missing = Required) < keyword-only "
+             "defaults < context values for names present < explicit "
+             "keywords, Required scan dominates the call, stack merged "
+             "oldest to newest (R1). __exit__ pops on every normal and "
+             "exceptional path, outside any assert, after the callbacks "
+             "which are entered on every exit (R2). At all 222 role-"
+             "carrying bindings of self.* calls in MachineController and "
+             "BMPController: an X/Y/P/APP_ID/CABINET/FRAME/BOARD value "
+             "reaches the formal of the same role, a role the caller holds "
+             "is never dropped or replaced by a constant (9 reasoned "
+             "exemptions), constants only 255/255/0; record and packet "
+             "fields follow (R3). Keyword pops declared to the decorator "
+             "(R4). Connection choice and the geometry index formula (R5). "
+             "All 182 stdlib references exist on this interpreter (R6).",
+        note="Not decided: timing of the stop signal; arguments user code "
+             "passes through *args. Trusted: role/exemption tables in "
+             "roles.py and rules/C18.py."),
 }
